@@ -146,3 +146,9 @@ prop("C07", module="MW.Props.C07", title="IBC transfers tracked and recovered",
      state_keys=["ibc_queue", "reply_queue", "state"],
      weights={"stake": 22, "rewards": 8, "ack": 18, "timeout": 8, "recover": 16, "stray": 6, "advance": 4},
      assumptions=["reply ids are unique per transaction under EnvTime (time-derived ids)", LEDGER_NOTE])
+
+prop("C18", module="MW.Props.C18", title="version-gated, preserving migrations", skip_staking=True, extra=["migration"],
+     variants=[], state_keys=[],
+     assumptions=["a migration is one atomic entry-point call (a refused migration persists nothing: runtime atomicity, checked on the raw storage)",
+                  "semver build metadata ('+…') is not modelled and never generated",
+                  "legacy stores are written in the serde-json-wasm encoding of the legacy layouts (u128 as string)"])
